@@ -73,7 +73,8 @@ KEYWORDS = {'let', 'mut', 'ref', 'if', 'else', 'match', 'for', 'in', 'fn', 'retu
             'while', 'loop', 'break', 'continue', 'where', 'mod', 'enum', 'type', 'crate', 'super', 'dyn', 'unsafe'}
 
 class Fn:
-    def __init__(self, mod, name, toks, lines, start, end, is_pub):
+    def __init__(self, mod, name, toks, lines, start, end, is_pub, params=()):
+        self.params = list(params)
         self.mod, self.name = mod, name
         self.t, self.lines = toks, lines          # shared token list of the file
         self.start, self.end = start, end         # body token range (inside the braces)
@@ -123,7 +124,19 @@ def find_fns(mod, t, lines, pairs):
             j = i + 2
             # skip generics / params / return type up to the body brace
             depth = 0
+            params = None
             while j < len(t):
+                if t[j] == '(' and params is None:
+                    # parameter names: the identifier before each top-level `:`
+                    params, k2, d2 = [], j + 1, 0
+                    while k2 < pairs[j]:
+                        if t[k2] in '([{<':
+                            d2 += 1
+                        elif t[k2] in ')]}>':
+                            d2 -= 1
+                        elif t[k2] == ':' and d2 == 0 and re.match(r'^[a-z_][a-z0-9_]*$', t[k2 - 1]) and (k2 + 1 >= len(t) or t[k2 + 1] != ':') and t[k2 - 2] != ':':
+                            params.append(t[k2 - 1])
+                        k2 += 1
                 if t[j] in '([':
                     j = pairs[j] + 1; continue
                 if t[j] == '{':
@@ -134,7 +147,7 @@ def find_fns(mod, t, lines, pairs):
             if j is None or j >= len(t):
                 i += 1; continue
             is_pub = i > 0 and (t[i - 1] == 'pub' or (i > 1 and t[i - 1] == ')' ))
-            fns.append(Fn(mod, name, t, lines, j + 1, pairs[j], is_pub))
+            fns.append(Fn(mod, name, t, lines, j + 1, pairs[j], is_pub, params or []))
         i += 1
     return fns
 
@@ -147,19 +160,30 @@ def classify_cond(c):
     s = ' '.join(c)
     if 'privacy_max_ttl' not in s:
         return None
-    # P >= Some ( H . ttl ( ) )
-    m = re.fullmatch(r'(?:[a-z_]+ \. )*privacy_max_ttl >= Some \( ([a-z_]+) \. ttl \( \) \)', s)
-    if m:
-        return ('geSome', False, m.group(1))
-    m = re.fullmatch(r'(?:[a-z_]+ \. )*privacy_max_ttl \. is_some \( \)', s)
+    P = r'(?:[a-z_]+ \. )*privacy_max_ttl'
+    HT = r'Some \( ([a-z_]+) \. ttl \( \) \)'
+    HS = r'Some \( \* ([a-z_]+) \)'
+    # the four spellings of each comparison (Rust's `Option` order is total: `a >= b` is `b <= a`, and the
+    # negation of `a >= b` is `a < b`); a leading `!` marks the negated literal
+    for h, lit_ge in ((HT, 'geSome'), (HS, '!someGt')):
+        for pat, neg in ((f'{P} >= {h}', False), (f'{h} <= {P}', False), (f'{P} < {h}', True), (f'{h} > {P}', True)):
+            m = re.fullmatch(pat, s)
+            if m:
+                name = lit_ge
+                if neg:
+                    name = name[1:] if name.startswith('!') else '!' + name
+                return (name, False, m.group(1))
+    m = re.fullmatch(P + r' \. is_some \( \)', s)
     if m:
         return ('isSome', False, None)
-    m = re.fullmatch(r'Some \( \* ([a-z_]+) \) > (?:[a-z_]+ \. )*privacy_max_ttl', s)
+    m = re.fullmatch(P + r' \. is_none \( \)', s)
     if m:
-        return ('someGt', False, m.group(1))
-    m = re.fullmatch(r'[a-z_]+ (?:\. [a-z_]+ )*\. iter \( \) \. any \( \| ([a-z_]+) \| Some \( \* \1 \) > (?:[a-z_]+ \. )*privacy_max_ttl \)', s)
+        return ('!isSome', False, None)
+    m = re.fullmatch(r'[a-z_]+ (?:\. [a-z_]+ )*\. iter \( \) \. any \( \| ([a-z_]+) \| (.*) \)', s)
     if m:
-        return ('someGt', True, m.group(1))
+        inner = classify_cond(m.group(2).split(' '))
+        if inner and inner[0] == 'someGt' and inner[2] == m.group(1):
+            return ('someGt', True, m.group(1))
     raise Unsupported(f'privacy condition of unknown shape: `{s}`')
 
 class Body:
@@ -238,8 +262,49 @@ class Body:
             return self.alias[c[0]][0]
         if len(c) == 2 and c[0] == '!' and c[1] in self.alias:
             lit = self.alias[c[1]][0]
-            return ('!' + lit[0], lit[1], lit[2])
-        return classify_cond(c)
+            return (lit[0][1:] if lit[0].startswith('!') else '!' + lit[0], lit[1], lit[2])
+        neg = False
+        if c and c[0] == '!':
+            c, neg = c[1:], True
+        c = self.inline_predicate(c)
+        lit = classify_cond(c)
+        if lit is not None and neg:
+            lit = (lit[0][1:] if lit[0].startswith('!') else '!' + lit[0], lit[1], lit[2])
+        return lit
+
+    ALL_FNS = {}
+
+    def inline_predicate(self, c):
+        """`helper(args)` where `helper` is a function of the same file whose body is one expression:
+        the body with the arguments in place of the parameters"""
+        if len(c) >= 3 and c[1] == '(' and c[-1] == ')' and (self.fn.mod, c[0]) in Body.ALL_FNS:
+            h = Body.ALL_FNS[(self.fn.mod, c[0])]
+            body = h.t[h.start:h.end]
+            if ';' in body or 'privacy_max_ttl' not in ' '.join(body) + ' ' + ' '.join(c):
+                return c
+            args, cur, depth = [], [], 0
+            for x in c[2:-1]:
+                if x in '([{':
+                    depth += 1
+                elif x in ')]}':
+                    depth -= 1
+                if x == ',' and depth == 0:
+                    args.append(cur); cur = []
+                else:
+                    cur.append(x)
+            if cur:
+                args.append(cur)
+            if len(args) != len(h.params):
+                return c
+            sub = dict(zip(h.params, args))
+            out = []
+            for i, x in enumerate(body):
+                if x in sub and (i == 0 or body[i - 1] != '.'):
+                    out += sub[x]
+                else:
+                    out.append(x)
+            return out
+        return c
 
     def guards_at(self, s, lo=None):
         """privacy literals (neg, lit, anyOver, hopvar, line) enclosing token index s, innermost first;
@@ -252,6 +317,21 @@ class Body:
             if ctx['kind'] == 'if' and ctx['cond'][0] <= s < ctx['cond'][1]:
                 for pc in ctx['prior']:
                     self.add_lit(out, pc, True)
+        # an `if COND { return …; }` without `else` that ends before the site, in a block that contains the
+        # site: the site is reached only when COND is false
+        for k, ctx in self.blocks.items():
+            e = self.pairs[k]
+            if ctx['kind'] != 'if' or e >= s or (e + 1 < len(t) and t[e + 1] == 'else') or ctx['prior']:
+                continue
+            inner = t[k + 1:e]
+            if not inner or inner[0] != 'return' or inner[-1] != ';' or ';' in inner[:-1]:
+                continue
+            if lo is not None and k < lo:
+                continue
+            parents = [p for p in self.blocks if p < k and self.pairs[p] > e]
+            parent_lo, parent_hi = (max(parents), self.pairs[max(parents)]) if parents else (self.fn.start - 1, self.fn.end)
+            if parent_lo < s < parent_hi:
+                self.add_lit(out, ctx['cond'], True)
         for k in sorted(opens, reverse=True):
             if lo is not None and k < lo:
                 continue
@@ -342,6 +422,7 @@ def main():
                     n += 1
                 fn.key = (mod, f'{fn.name}#{n}')
             fns[fn.key] = fn
+    Body.ALL_FNS = fns
     bodies = {k: Body(fn, files[fn.mod][2], problems) for k, fn in fns.items()}
 
     # call sites: NAME ( or MOD :: NAME ( or a bare reference to a known fn (passed as a value)
